@@ -170,11 +170,34 @@ package handler
 //@ define MSM7WF(p) = p.Header != nil && forall(k, 0, len(p.Signals), forall(l, 0, len(p.Signals[k]), p.Signals[k][l].Satellite != nil))
 //@ define ReadableWF(m) = m.Readable == nil || typeis(m.Readable, "string") || ((typeis(m.Readable, "*github.com/goblimey/go-ntrip/rtcm/type1005.Message") || typeis(m.Readable, "*github.com/goblimey/go-ntrip/rtcm/type1006.Message")) && unbox(m.Readable) != 0) || (typeis(m.Readable, "*github.com/goblimey/go-ntrip/rtcm/type_msm4/message.Message") && unbox(m.Readable) != 0 && ptr(unbox(m.Readable), "github.com/goblimey/go-ntrip/rtcm/type_msm4/message.Message").Header != nil) || (typeis(m.Readable, "*github.com/goblimey/go-ntrip/rtcm/type_msm7/message.Message") && unbox(m.Readable) != 0 && MSM7WF(ptr(unbox(m.Readable), "github.com/goblimey/go-ntrip/rtcm/type_msm7/message.Message")))
 
+// the four decoding wrappers: a frame its decoder accepts gets its decoded form attached
+//@ func analyseMSM4
+//@ opaque Row4OK, Row7OK, Sig4OK, Sig7OK, RowOK
+//@ requires[C07] message != nil
+//@ modifies message
+//@ ensures[C04] WFMSM4(messageBitStream) ==> typeis(message.Readable, "*github.com/goblimey/go-ntrip/rtcm/type_msm4/message.Message") && unbox(message.Readable) != 0
+//@ ensures message.RawData == old(message.RawData) && message.MessageType == old(message.MessageType) && message.LogLevel == old(message.LogLevel)
+//@ ensures message.Readable == old(message.Readable) || (typeis(message.Readable, "*github.com/goblimey/go-ntrip/rtcm/type_msm4/message.Message") && unbox(message.Readable) != 0)
+
+//@ func analyseMSM7
+//@ opaque Row4OK, Row7OK, Sig4OK, Sig7OK, RowOK
+//@ requires[C07] message != nil
+//@ modifies message
+//@ ensures[C04] WFMSM7(messageBitStream) ==> typeis(message.Readable, "*github.com/goblimey/go-ntrip/rtcm/type_msm7/message.Message") && unbox(message.Readable) != 0
+//@ ensures message.RawData == old(message.RawData) && message.MessageType == old(message.MessageType) && message.LogLevel == old(message.LogLevel)
+//@ ensures message.Readable == old(message.Readable) || (typeis(message.Readable, "*github.com/goblimey/go-ntrip/rtcm/type_msm7/message.Message") && unbox(message.Readable) != 0)
+
 //@ func Analyse
 //@ requires[C07] message != nil
 //@ modifies message
 //@ ensures[C07] old(message.Readable) == nil ==> ReadableWF(message)
 //@ ensures[C15] message.RawData == old(message.RawData) && message.MessageType == old(message.MessageType) && message.LogLevel == old(message.LogLevel)
+// full decoding is not only attempted but succeeds for every well-formed frame of a decoded type, whatever else
+// the message carries (an earlier error text, time fields): the decoded form is then present
+//@ ensures[C04] old(message.MessageType == bits(message.RawData, 24, 12) && WFMSM4(message.RawData)) ==> typeis(message.Readable, "*github.com/goblimey/go-ntrip/rtcm/type_msm4/message.Message") && unbox(message.Readable) != 0
+//@ ensures[C04] old(message.MessageType == bits(message.RawData, 24, 12) && WFMSM7(message.RawData)) ==> typeis(message.Readable, "*github.com/goblimey/go-ntrip/rtcm/type_msm7/message.Message") && unbox(message.Readable) != 0
+//@ ensures[C05] old(message.MessageType == 1005 && bits(message.RawData, 24, 12) == 1005 && 8*len(message.RawData) - 48 >= 152) ==> typeis(message.Readable, "*github.com/goblimey/go-ntrip/rtcm/type1005.Message") && unbox(message.Readable) != 0
+//@ ensures[C05] old(message.MessageType == 1006 && bits(message.RawData, 24, 12) == 1006 && 8*len(message.RawData) - 48 >= 168) ==> typeis(message.Readable, "*github.com/goblimey/go-ntrip/rtcm/type1006.Message") && unbox(message.Readable) != 0
 //@ ensures[C20] !(isMSM(message.MessageType) || message.MessageType == 1005 || message.MessageType == 1006) ==> typeis(message.Readable, "string") && message.ErrorMessage == old(message.ErrorMessage)
 //@ ensures[C20] isMSM4(message.MessageType) ==> typeis(message.Readable, "*github.com/goblimey/go-ntrip/rtcm/type_msm4/message.Message") || message.Readable == old(message.Readable)
 //@ ensures[C20] isMSM7(message.MessageType) ==> typeis(message.Readable, "*github.com/goblimey/go-ntrip/rtcm/type_msm7/message.Message") || message.Readable == old(message.Readable)
